@@ -118,10 +118,7 @@ REGRESSION_DOCS = [
 ]
 
 
-# column groups written with omitted tags (the generator itself writes every tag).  They hit the residual of
-# 63d09b5 (known finding, fix pending as fixes/C03-20.diff); VERIF_C03_PENDING=20 includes them and lifts X12 to
-# validate a tree that has the fix.
-PENDING_20 = os.environ.get('VERIF_C03_PENDING') == '20'
+# column groups written with omitted tags (the generator itself writes every tag): regression cases of bdcb619
 COLGROUP_OMITTED_DOCS = [
     '<table><col><colgroup><col></table>', '<table><colgroup span=2><col><colgroup><col></table>',
     '<table><colgroup><col><colgroup><col><tbody><tr><td>a</table>', '<table><col><col><colgroup span=2><colgroup><col></table>',
@@ -133,10 +130,9 @@ COLGROUP_OMITTED_DOCS = [
 
 def regression_cases(ctx):
     out = []
-    if PENDING_20:
-        for src in COLGROUP_OMITTED_DOCS:
-            for o in PAIRWISE8:
-                out.append(mk(src, o, True, 0, origin='regression'))
+    for src in COLGROUP_OMITTED_DOCS:
+        for o in PAIRWISE8:
+            out.append(mk(src, o, True, 0, origin='regression'))
     for src, opts, frag, tmpl in REGRESSION_DOCS:
         for o in sorted(set([opts] + PAIRWISE8)):
             out.append(mk(src, o, frag, tmpl, origin='regression'))
@@ -611,12 +607,8 @@ def run(ctx):
     # second pass: the real outputs of accepted generated documents are conforming documents written with
     # omitted tags and minimal white space (the generator itself writes every tag); they are new inputs
     bad1 = set(i for i, _ in rejects)
-    # X12 (known finding): an attribute-less <colgroup> directly after a col / colgroup start tag, i.e. after a
-    # column group whose end tag (or both tags) the *input* already omits
-    x12 = re.compile(r'<col(group)?(\s[^>]*)?>(\s|<!--.*?-->)*<colgroup>')
     outs = sorted(set((side[i], cases[i]['frag']) for i in range(n_tree)
-                      if i not in bad1 and cases[i]['opts'] == 0 and side[i].encode() != bytes(cases[i]['src'])
-                      and (PENDING_20 or not x12.search(side[i]))))
+                      if i not in bad1 and cases[i]['opts'] == 0 and side[i].encode() != bytes(cases[i]['src'])))
     outs = vlib.sample(outs, 1500 if ctx.quick() else 30000, ctx.rnd)
     pass2 = []
     for j, (m, frag) in enumerate(outs):
@@ -690,7 +682,7 @@ def run(ctx):
              'walks, all inputs of html/html_test.go, template-delimiter documents; each crossed with Keep* option sets '
              '(8 pairwise-covering sets; all 128 for the test inputs in thorough) and read as fragment (body context) '
              'and as document; a case is (input bytes, options, fragment?, delimiters); non-trivial = the real minifier '
-             'changed the bytes.  Generator exclusions (known findings, pinned in known/C03.ndjson): X7 empty attribute-less script/style; X11 optgroup directly inside template contents; X12 (second pass only) attribute-less <colgroup> after a colgroup without end tag; X10 a kept comment (KeepComments/KeepSpecialComments) directly after a dropped tag; %d repository test inputs '
+             'changed the bytes.  Generator exclusions (known findings, pinned in known/C03.ndjson): X7 empty attribute-less script/style; X11 optgroup directly inside template contents; X10 a kept comment (KeepComments/KeepSpecialComments) directly after a dropped tag; %d repository test inputs '
              'that are not conforming HTML (listed in tools/props/c03.py)' % len(skipped),
         samples=samples,
         exhaustive=True,
